@@ -19,6 +19,10 @@ CLAIMED = {
   text="5 Lean theorems: size = total length of keys and values after every history of blocks, undos of the most recent applied blocks (incl. undo-redo-undo of the same block), finality, merges of partial stores (all policies and value types) and save/load, by an invariant over all reachable states; undo restores the pre-block content; no size update underflows; ApplyDelta rejects as too big iff the real content exceeds the limit. Tie: real SizeBytes vs Iter after every step of seeded histories incl. lowered limits (verif hook)",
   note="Trusted: as C08; merge is modelled on a store at rest (Reset first); the limit is only checked where the code checks it (ApplyDelta), merges do not check it; float64 text lengths are outside the model (the size oracle on the real code still covers them)"),
 }
+CLAIMED["C16"] = dict(
+  text="24 Lean theorems over the retry/classification state machine of RemoteWorker.Work/work() and the two error tables (tier2 toGRPCError, tier1 toConnectError), for arbitrary retry/time-out budgets and instantiated at the constants and tables EXTRACTED from the current source on every run: transient faults (<= maxRetries) followed by a complete attempt give success in #faults+1 attempts; fatal/deterministic failures are not retried and are invalid-argument end to end (composition of the three tables); bounded attempts, success only after a cleanly completed attempt (no silent truncation), cancellation stops; abstract file theorem (failed attempts followed by a complete one leave the fault-free files). PARTIAL: the gRPC transport, timers and the end-to-end equality of outputs are exercised (real worker against scripted streams and against the real Tier2Service.ProcessRange over bufconn) but not proved",
+  note="Trusted: Lean kernel + 3 standard axioms; the go/ast extractor (harness/cmd/extract_c16) that regenerates lean/Generated/ConstsC16.lean; harness and scripted gRPC fakes; grpc-go delivers status codes unchanged and returns io.EOF only on a nil handler return; back-off sleeps are real (not shortened); see checks/C16.json assumptions",
+  technique="Lean 4 theorems over an executable model of the retry machine, instantiated at constants/tables regenerated from the source by a go/ast extractor + differential correspondence against the real worker and tables")
 NA_REASON = "check not built yet in this session (planned, see DESIGN.md §11); not a claim that the technique cannot apply"
 
 def chk(pid, d):
